@@ -359,6 +359,9 @@ def run_numpy(case, ctx):
         if dt_ != 'float' and arrs[i_].ndim == 1:      # integer / bool arrays: padding still means NaN, never a cast of NaN
             arrs[i_] = (arrs[i_] % 2 == 0) if dt_ == 'bool' else arrs[i_].astype(dt_)
     before = [a.copy() for a in arrs]
+    if case.get('readonly'):
+        for a_ in arrs:
+            a_.flags.writeable = False      # arrays the caller has frozen: aligning builds new ones
     cont = list(arrs) if case['cont'] == 'list' else {('k%d' % i): a for i, a in enumerate(arrs)}
     policy = case['policy']
     lens = [len(a) for a in arrs]
@@ -481,6 +484,8 @@ def gen_case(rng):
         if any(isinstance(a, dict) for a in arrays) and len({a['k'] for a in arrays if isinstance(a, dict)}) > 1:
             arrays = [a for a in arrays if not isinstance(a, dict)] or [[1.0, 2.0]]
         case = {'kind': 'numpy', 'arrays': arrays, 'policy': rng.choice(['ij', 'oj', 'lj', 'rj']), 'cont': rng.choice(['list', 'dict']), 'api': rng.choice(['df_reindex', 'df_sync'])}
+        if rng.random() < 0.25:
+            case['readonly'] = True
         if rng.random() < 0.4:
             case['dtypes'] = [rng.choice(['float', 'int64', 'int32', 'bool']) for _ in arrays]
         elif rng.random() < 0.5:
